@@ -14,6 +14,14 @@ the Spec value):
                       `Buffer.single` / `Buffer.diff` and, for FFBuffer, `FFBuffer.realRun` from power-on;
                       Spec side: `padClaims` (which pads carry a cell - a differential *input* has none on
                       its `n` half), `padBuffer`, `ffRunPads`
+  D2 FFBuffer+reset   as D, in domains that have a synchronous or an asynchronous reset which the testbench raises
+                      and releases mid-run (with and without a clock edge in the same event); FFBuffer's registers
+                      are declared reset_less, so the model's `ff` run without any reset is the expectation
+  F  RTLIL            buffers on concatenations of slices / single bits of SEVERAL IOPorts (index patterns where a
+                      bit of another port follows bit k-1 of a port at index k, in the numbering of the top module
+                      and of submodules), the buffer being the converted design, a submodule, or two levels down;
+                      `back.rtlil.convert`, the text read back by a small RTLIL reader (module hierarchy, connect,
+                      $tribuf, $dff, bitwise cells) that yields the observations of stream E; same model request
 """
 import concurrent.futures as cf
 import itertools
@@ -308,13 +316,19 @@ def sim_buffer(job):
 
 
 def sim_ffbuffer(job):
-    """job = (expr, bdir, two_domains, events) ; events: (o, oe, pi, tickI, tickO)"""
+    """job = (expr, bdir, two_domains, events[, (reset_kind, resets)]) ; events: (o, oe, pi, tickI, tickO)
+
+    reset_kind: "sync" | "async" - the domains have a reset signal of that kind; resets: one (rstI, rstO) per
+    event, the level the testbench puts on the reset of the i / o domain before the event's clock edges (with one
+    shared domain rstI is used). Without the fifth element the domains are reset-less, as before."""
     import warnings
     warnings.simplefilter("ignore")
     from amaranth.hdl import Module, ClockDomain, Cat
     from amaranth.lib import io
     from amaranth.sim import Simulator
-    e, bdir, two, events = job
+    e, bdir, two, events = job[:4]
+    rkind, resets = job[4] if len(job) > 4 else (None, None)
+    cdkw = dict(reset_less=True) if rkind is None else dict(async_reset=(rkind == "async"))
     try:
         port = build("sim", e)
         kw = {}
@@ -327,15 +341,20 @@ def sim_ffbuffer(job):
         m = Module()
         m.submodules.buf = buf
         if two:
-            m.domains.di = cdi = ClockDomain(reset_less=True)
-            m.domains.do = cdo = ClockDomain(reset_less=True)
+            m.domains.di = cdi = ClockDomain(**cdkw)
+            m.domains.do = cdo = ClockDomain(**cdkw)
         else:
-            m.domains.sync = cdi = cdo = ClockDomain(reset_less=True)
+            m.domains.sync = cdi = cdo = ClockDomain(**cdkw)
         sim = Simulator(m)
         out = []
 
         async def tb(ctx):
-            for o, oe, pi, ti, to in events:
+            for n, (o, oe, pi, ti, to) in enumerate(events):
+                if rkind is not None:
+                    ri, ro = resets[n]
+                    ctx.set(cdi.rst, ri)
+                    if two:
+                        ctx.set(cdo.rst, ro)
                 if bdir != "i":
                     ctx.set(buf.o, o)
                     ctx.set(buf.oe, oe)
@@ -547,6 +566,434 @@ def eval_real(nl, kind, built):
 
 
 # ------------------------------------------------------------------------------------------------
+# the same designs read back from the emitted RTLIL text (stream F)
+
+def _rtlil_sigspec(tokens):
+    """[(wire, bit | None) | ("const", 0|1)], LSB first; `None` = the whole wire (expanded by the caller)"""
+    tok = tokens.pop(0)
+    if tok == "{":
+        parts = []
+        while tokens[0] != "}":
+            parts.append(_rtlil_sigspec(tokens))
+        tokens.pop(0)
+        out = []
+        for part in reversed(parts):        # concatenations are written MSB first
+            out += part
+        return out
+    if tok[0] in "\\$":
+        if tokens and tokens[0].startswith("["):
+            sel = tokens.pop(0)[1:-1]
+            hi, _, lo = sel.partition(":")
+            hi = int(hi)
+            lo = int(lo) if lo else hi
+            return [(tok, b) for b in range(lo, hi + 1)]
+        return [(tok, None)]
+    _width, _, digits = tok.partition("'")
+    if not digits and _width.isdigit():     # a plain integer
+        raise NotImplementedError(f"integer sigspec {tok}")
+    if set(digits) - {"0", "1"}:
+        raise NotImplementedError(f"constant {tok}")
+    return [("const", int(d)) for d in reversed(digits)]
+
+
+def rtlil_parse(text):
+    """{module: {"wires": {name: (width, port kind | None, init bits | None)}, "cells": [...], "connects": [...]}}"""
+    modules = {}
+    module = cell = None
+    init = None
+    for line in text.splitlines():
+        tokens = line.split()
+        if not tokens:
+            continue
+        t0 = tokens[0]
+        if t0 == "attribute":
+            if tokens[1] == "\\init" and cell is None and module is not None:
+                init = [b for _c, b in _rtlil_sigspec(tokens[2:])]
+        elif t0 == "module":
+            module = modules[tokens[1]] = {"wires": {}, "cells": [], "connects": []}
+            init = None
+        elif t0 == "wire" and cell is None:
+            width, kind = 1, None
+            if "width" in tokens:
+                width = int(tokens[tokens.index("width") + 1])
+            for k in ("input", "output", "inout"):
+                if k in tokens[1:-1]:
+                    kind = k
+            module["wires"][tokens[-1]] = (width, kind, init)
+            init = None
+        elif t0 == "cell":
+            cell = {"type": tokens[1], "name": tokens[2], "ports": {}, "params": {}}
+            module["cells"].append(cell)
+        elif t0 == "parameter" and cell is not None:
+            cell["params"][tokens[-2]] = tokens[-1]
+        elif t0 == "connect":
+            rest = tokens[1:]
+            if cell is not None:
+                port = rest.pop(0)
+                cell["ports"][port] = _rtlil_sigspec(rest) if rest else []
+            else:
+                lhs = _rtlil_sigspec(rest)
+                rhs = _rtlil_sigspec(rest)
+                module["connects"].append((lhs, rhs))
+        elif t0 == "end":
+            if cell is not None:
+                cell = None
+            else:
+                module = None
+        elif t0 in ("process", "memory", "switch", "case", "assign", "sync", "update"):
+            raise NotImplementedError(f"RTLIL statement {t0}")
+    for mod in modules.values():
+        def expand(bits, mod=mod):
+            out = []
+            for wire, bit in bits:
+                if bit is None:
+                    if wire not in mod["wires"]:
+                        raise NotImplementedError(f"undeclared wire {wire}")
+                    out += [(wire, i) for i in range(mod["wires"][wire][0])]
+                else:
+                    out.append((wire, bit))
+            return out
+        for c in mod["cells"]:
+            c["ports"] = {k: expand(v) for k, v in c["ports"].items()}
+        mod["connects"] = [(expand(a), expand(b)) for a, b in mod["connects"]]
+    return modules
+
+
+_RTLIL_COMB = {"$xor": lambda a, b: a ^ b, "$and": lambda a, b: a & b, "$or": lambda a, b: a | b}
+
+
+class RtlilDesign:
+    """The emitted text flattened into bit nodes (instance path, wire, bit). Ports of submodule cells alias the
+    child's port wire with what the parent connects; `connect` and primitive cells ($not $xor $and $or $mux $pos
+    $dff $tribuf) are drivers. Pads are the bits of the top-level wires called a<N>: reading a pad gives the value
+    the testbench put on it; what drives a pad is collected per $tribuf / `connect`."""
+
+    def __init__(self, text, top="\\top"):
+        self.modules = rtlil_parse(text)
+        if top not in self.modules:
+            raise NotImplementedError("no module \\top")
+        self.top = top
+        self.parent = {}
+        self.drivers = {}        # node -> [driver] (moved to the class representative by _settle)
+        self.problems = []
+        self.tribufs = []        # (inst, Y nodes, A nodes, EN node)
+        self.connects = []       # (inst, lhs nodes, rhs nodes)
+        self.dffs = []           # (key, D nodes, Q nodes, init)
+        self._inst((), top)
+        self._settle()
+
+    # -- union-find
+    def find(self, x):
+        p = self.parent
+        root = x
+        while p.get(root, root) != root:
+            root = p[root]
+        while p.get(x, x) != x:
+            p[x], x = root, p[x]
+        return root
+
+    def union(self, a, b):
+        ra, rb = self.find(a), self.find(b)
+        if ra != rb:
+            # keep top-level nodes as representatives
+            if len(rb[0]) < len(ra[0]):
+                ra, rb = rb, ra
+            self.parent[rb] = ra
+
+    def node(self, inst, mod, sig):
+        wire, bit = sig
+        if wire == "const":
+            return ("const", bit)
+        width = self.modules[mod]["wires"].get(wire, (0,))[0]
+        if bit >= width:
+            self.problems.append(f"{wire}[{bit}] beyond the {width} bit(s) of the wire")
+        return (inst, wire, bit)
+
+    def _inst(self, inst, modname):
+        mod = self.modules[modname]
+        for c in mod["cells"]:
+            ports = {k: [self.node(inst, modname, x) for x in v] for k, v in c["ports"].items()}
+            t = c["type"]
+            if t in self.modules:
+                child = inst + (c["name"],)
+                cm = self.modules[t]
+                for pname, nodes in ports.items():
+                    if pname not in cm["wires"] or cm["wires"][pname][1] is None:
+                        self.problems.append(f"cell port {pname} is not a port of {t}")
+                        continue
+                    if cm["wires"][pname][0] != len(nodes):
+                        self.problems.append(f"cell port {pname}: {len(nodes)} bit(s) connected to a port of {cm['wires'][pname][0]}")
+                    for b, pn in enumerate(nodes):
+                        cn = (child, pname, b)
+                        if pn[0] == "const":
+                            self.drivers.setdefault(cn, []).append(pn)
+                        else:
+                            self.union(cn, pn)
+                self._inst(child, t)
+            elif t == "$tribuf":
+                self.tribufs.append((inst, ports["\\Y"], ports["\\A"], ports["\\EN"][0]))
+            elif t == "$dff":
+                if c["params"].get("\\CLK_POLARITY") != "1":
+                    raise NotImplementedError("negative-edge $dff")
+                q = ports["\\Q"]
+                init = []
+                for w, b in c["ports"]["\\Q"]:
+                    iv = mod["wires"].get(w, (0, None, None))[2]
+                    init.append(iv[b] if iv is not None and b < len(iv) else 0)
+                key = ("ff", len(self.dffs))
+                self.dffs.append((key, ports["\\D"], q, init))
+                for b, qn in enumerate(q):
+                    self.drivers.setdefault(qn, []).append(("ffq", key, b))
+            elif t in ("$not", "$pos", "$mux") or t in _RTLIL_COMB:
+                if c["params"].get("\\A_SIGNED", "0") != "0" or c["params"].get("\\B_SIGNED", "0") != "0":
+                    raise NotImplementedError("signed cell")
+                ylen = len(ports["\\Y"])
+                for k in ("\\A", "\\B"):
+                    if k in ports and len(ports[k]) != ylen:
+                        raise NotImplementedError(f"{t} with operands of another width than the result")
+                for b, yn in enumerate(ports["\\Y"]):
+                    self.drivers.setdefault(yn, []).append(("op", t, ports, b))
+            else:
+                raise NotImplementedError(f"RTLIL cell {t}")
+        for lhs, rhs in mod["connects"]:
+            ln = [self.node(inst, modname, x) for x in lhs]
+            rn = [self.node(inst, modname, x) for x in rhs]
+            if len(ln) != len(rn):
+                self.problems.append(f"connect of {len(ln)} and {len(rn)} bit(s)")
+            self.connects.append((inst, ln, rn))
+
+    def pad(self, node):
+        """(port number, bit) of the top-level pad this node is, or None"""
+        if node[0] == "const":
+            return None
+        r = self.find(node)
+        if r[0] == () and r[1][:2] == "\\a" and r[1][2:].isdigit():
+            return int(r[1][2:]), r[2]
+        return None
+
+    def _settle(self):
+        # after all aliases are known: `connect`s that do not touch a pad become ordinary drivers
+        self.pad_out = []     # (inst, pad-side nodes, data nodes)   connect <pads> <data>  (output, always enabled)
+        self.pad_in = []      # (inst, pad-side nodes)               connect <wire> <pads>
+        for inst, ln, rn in self.connects:
+            lp = [self.pad(x) is not None for x in ln]
+            rp = [self.pad(x) is not None for x in rn]
+            if any(lp):
+                self.pad_out.append((inst, ln, rn))
+            else:
+                if any(rp):
+                    self.pad_in.append((inst, rn))
+                for a, b in zip(ln, rn):
+                    self.drivers.setdefault(a, []).append(("alias", b))
+        byroot = {}
+        for n, ds in self.drivers.items():
+            byroot.setdefault(self.find(n), []).extend(ds)
+        self.drivers = byroot
+
+    def pad_str(self, nodes):
+        out = []
+        for n in nodes:
+            p = self.pad(n)
+            if p is not None:
+                out.append(f"{p[0]}.{p[1]}")
+            elif n[0] == "const":
+                out.append(f"const!{n[1]}")
+            else:
+                r = self.find(n)
+                out.append(f"{'.'.join(x.lstrip(chr(92)) for x in r[0])}:{r[1].lstrip(chr(92))}!{r[2]}")
+        return "[" + ",".join(out) + "]"
+
+
+class RtlilEval:
+    def __init__(self, design, given, ffstate):
+        self.d = design
+        self.given = given          # representative node -> bit (top-level inputs and pads)
+        self.ff = ffstate           # ff key -> [bits]
+        self.memo = {}
+        self.floating = False
+
+    def bit(self, node):
+        if node[0] == "const":
+            return node[1]
+        d = self.d
+        r = d.find(node)
+        if r in self.memo:
+            v = self.memo[r]
+            if v is None:
+                raise NotImplementedError("combinational loop in the emitted RTLIL")
+            return v
+        if r in self.given:
+            return self.given[r]
+        if d.pad(r) is not None:
+            return 0                # a pad nobody was asked to read
+        self.memo[r] = None
+        ds = d.drivers.get(r, [])
+        if len(ds) != 1:
+            self.floating = True    # undriven, or driven twice: reported in the blob
+            if not ds:
+                self.memo[r] = 0
+                return 0
+        drv = ds[0]
+        if drv[0] == "const":
+            v = drv[1]
+        elif drv[0] == "alias":
+            v = self.bit(drv[1])
+        elif drv[0] == "ffq":
+            v = self.ff[drv[1]][drv[2]]
+        else:
+            _op, t, ports, b = drv
+            if t == "$not":
+                v = 1 - self.bit(ports["\\A"][b])
+            elif t == "$pos":
+                v = self.bit(ports["\\A"][b])
+            elif t == "$mux":
+                v = self.bit(ports["\\B"][b]) if self.bit(ports["\\S"][0]) else self.bit(ports["\\A"][b])
+            else:
+                v = _RTLIL_COMB[t](self.bit(ports["\\A"][b]), self.bit(ports["\\B"][b]))
+        self.memo[r] = v
+        return v
+
+    def value(self, nodes):
+        return sum(self.bit(n) << k for k, n in enumerate(nodes))
+
+
+def run_rtlil(job):
+    """job = (kind, nesting, [(ff, bdir, expr, vecs)]) -> the blob of eval_real, computed from the RTLIL text.
+    nesting 0: the (single) buffer is the design that is converted; 1: buffers are submodules b<k> of the top
+    module; 2: submodules of a submodule."""
+    import warnings
+    warnings.simplefilter("ignore")
+    from amaranth.hdl import Module, Signal
+    from amaranth.back import rtlil
+    from amaranth.lib import io
+    kind, nesting, bufs = job
+    try:
+        built = []
+        shared = {}
+        ports = []
+        if nesting == 0:
+            (ff, bdir, e, vecs), = bufs
+            port = build_shared(kind, e, shared)
+            top = buf = (io.FFBuffer if ff else io.Buffer)(bdir, port)
+            built.append((ff, bdir, port, buf, vecs))
+            if bdir != "o":
+                ports.append(buf.i)
+            if bdir != "i":
+                ports += [buf.o, buf.oe]
+        else:
+            top = Module()
+            holder = top
+            if nesting == 2:
+                top.submodules.inner = holder = Module()
+            for idx, (ff, bdir, e, vecs) in enumerate(bufs):
+                port = build_shared(kind, e, shared)
+                buf = (io.FFBuffer if ff else io.Buffer)(bdir, port)
+                holder.submodules[f"b{idx}"] = buf
+                built.append((ff, bdir, port, buf, vecs))
+                w = len(port)
+                if bdir != "o":
+                    s = Signal(w, name=f"b{idx}_i")
+                    top.d.comb += s.eq(buf.i)
+                    ports.append(s)
+                if bdir != "i":
+                    s, se = Signal(w, name=f"b{idx}_o"), Signal(name=f"b{idx}_oe")
+                    top.d.comb += [buf.o.eq(s), buf.oe.eq(se)]
+                    ports += [s, se]
+        text = rtlil.convert(top, ports=ports, emit_src=False)
+    except Exception as exc:  # noqa: BLE001
+        return "err:" + common.errkind(exc), None
+    try:
+        return eval_rtlil(text, kind, nesting, built), None
+    except NotImplementedError as exc:
+        return "unevaluable", str(exc)
+
+
+def eval_rtlil(text, kind, nesting, built):
+    """the observations of eval_real (same blob), taken from the text: $tribuf cells and the `connect`s from / to
+    pad bits play the role of the IOBuffer cells; every wire is followed through the module hierarchy"""
+    import re
+    d = RtlilDesign(text)
+    topw = d.modules[d.top]["wires"]
+
+    def top_nodes(name):
+        if name not in topw:
+            raise NotImplementedError(f"no top-level wire {name}")
+        return [((), name, b) for b in range(topw[name][0])]
+
+    def buf_of(inst):
+        for comp in inst:
+            mm = re.fullmatch(r"\\b(\d+)", comp)
+            if mm:
+                return int(mm.group(1))
+        if nesting == 0:
+            return 0
+        raise NotImplementedError("buffer cell outside of the buffer submodules")
+
+    # the cells: output side ($tribuf / connect to pads) and input side (connect from pads), paired per instance
+    outs = [(inst, y, a, en) for inst, y, a, en in d.tribufs] + [(inst, ln, rn, ("const", 1)) for inst, ln, rn in d.pad_out]
+    ins = list(d.pad_in)
+    cells = []       # (inst, pad string, pad list, dir, a nodes, en node)
+    for inst, y, a, en in outs:
+        ps = d.pad_str(y)
+        mate = [k for k, (i2, rn) in enumerate(ins) if i2 == inst and d.pad_str(rn) == ps]
+        if mate:
+            ins.pop(mate[0])
+        cells.append((inst, ps, [d.pad(x) for x in y], "io" if mate else "o", a, en))
+    for inst, rn in ins:
+        cells.append((inst, d.pad_str(rn), [d.pad(x) for x in rn], "i", None, None))
+    used = [p for c in cells for p in c[2] if p is not None]
+    dup = len(used) != len(set(used))
+
+    # names of the data signals at top level
+    names = []
+    for k, (ff, bdir, port, buf, vecs) in enumerate(built):
+        if nesting == 0:
+            outw = [n for n, (_w, kd, _i) in topw.items() if kd == "output" and not re.fullmatch(r"\\a\d+", n)]
+            names.append(("\\o", "\\oe", outw[0] if len(outw) == 1 else "\\i"))
+        else:
+            names.append((f"\\b{k}_o", f"\\b{k}_oe", f"\\b{k}_i"))
+    nvec = len(built[0][4])
+    per_cell = [[] for _ in cells]
+    per_buf = [[] for _ in built]
+    floating = False
+    for j in range(nvec):
+        given = {}
+        for (ff, bdir, port, buf, vecs), (no, noe, _ni) in zip(built, names):
+            o, oe, pad = vecs[j]
+            if bdir != "i":
+                for b, n in enumerate(top_nodes(no)):
+                    given[d.find(n)] = (o >> b) & 1
+                given[d.find(top_nodes(noe)[0])] = oe
+            if bdir != "o":
+                for b, (pname, pbit) in enumerate(flat_io(port.io if kind == "se" else port.p)):
+                    given[d.find(((), "\\" + pname, pbit))] = (pad >> b) & 1
+        for n, (_w, kd, _i) in topw.items():
+            if kd == "input":
+                for node in top_nodes(n):
+                    given.setdefault(d.find(node), 0)      # clk, rst and anything else that is not data
+        ev0 = RtlilEval(d, given, {key: init for key, _dn, _qn, init in d.dffs})
+        ev1 = RtlilEval(d, given, {key: [ev0.bit(x) for x in dn] for key, dn, _qn, _init in d.dffs})
+        for ci, (inst, _ps, _pl, cdir, a, en) in enumerate(cells):
+            is_ff = built[buf_of(inst)][0]
+            for ev in ([ev0, ev1] if is_ff else [ev0]):
+                per_cell[ci].append("-,-" if cdir == "i" else f"{ev.value(a)},{ev.bit(en)}")
+        for k, ((ff, bdir, _port, _buf, _vecs), (_no, _noe, ni)) in enumerate(zip(built, names)):
+            for ev in ([ev0, ev1] if ff else [ev0]):
+                per_buf[k].append("-" if bdir == "o" else str(ev.value(top_nodes(ni))))
+        floating = floating or ev0.floating or ev1.floating
+    cs = sorted(f"{ps}|{cdir}|" + "/".join(per_cell[ci]) for ci, (_inst, ps, _pl, cdir, _a, _en) in enumerate(cells))
+    ivals = ["/".join(v) if v else "-" for v in per_buf]
+    blob = "ok#" + "&".join(cs) + "#" + "&".join(ivals)
+    if dup:
+        blob += "#DUPLICATE-PAD-BIT"
+    if floating:
+        blob += "#FLOATING-NET"
+    if d.problems:
+        blob += "#MALFORMED:" + ";".join(sorted(set(d.problems)))[:200].replace(" ", "_")
+    return blob
+
+
+# ------------------------------------------------------------------------------------------------
 
 _POOL = None
 
@@ -625,6 +1072,8 @@ def run(chk):
         composite=240 if quick else 12000,
         ff_events=14 if quick else 40,
         real_random=500 if quick else 40000,
+        ff_reset=240 if quick else 6000,
+        rtlil_designs=700 if quick else 30000,
     )
     chk.extra["tier_parameters"] = P
     start_pool(workers)
@@ -854,6 +1303,89 @@ def _run(chk, rng, quick, workers, P):
                                     "port expressions over shared IOPorts (about half of them claim a pad bit twice)")
 
     lap("E")
+    # ---------------------------------------------------------------- D2: FFBuffer in domains that have a reset
+    # (the registers are declared reset_less: a reset of either kind, pulsed mid-run, changes nothing; the model's
+    # `ff` run - which has no reset input at all - is the expectation)
+    jobs = []
+    for rkind in ("sync", "async"):
+        for pdir, bdir in LEGAL:
+            for two in (False, True):
+                for w, mask in ((1, 1), (3, 0b010), (4, 0b0101)):
+                    evs, rs = gen_reset_events(rng, w, P["ff_events"], two)
+                    jobs.append((("leaf", pdir, 0, w, bits_of(mask, w)), bdir, two, evs, (rkind, rs)))
+    n_d2_exh = len(jobs)
+    for _ in range(P["ff_reset"]):
+        e, w, pdir = linear_tree(g, rng)
+        bdir = rng.choice([b for p_, b in LEGAL if p_ == pdir])
+        two = rng.random() < 0.6
+        evs, rs = gen_reset_events(rng, w, P["ff_events"], two)
+        jobs.append((e, bdir, two, evs, (rng.choice(["sync", "async"]), rs)))
+    impls = pmap(sim_ffbuffer, jobs, workers)
+    inv_batch(chk, [j[0] for j in jobs])
+    reqs, cs = [], []
+    for (e, bdir, two, evs, (rkind, rs)) in jobs:
+        inv = inv_of(chk, e)
+        reqs.append(f"(ff {bdir} {inv or '-'} " + " ".join("(" + " ".join(str(x) for x in ev) + ")" for ev in evs) + ")")
+        cs.append({"port": ser(e), "bdir": bdir, "invert": inv, "two_domains": two, "events": evs, "reset_kind": rkind, "resets": rs})
+    compare(chk, "FFBuffer(sim, domains with reset)", cs, impls, chk.driver.ask(reqs))
+    chk.count(sum(len(j[3]) for j in jobs))
+    for (e, bdir, two, evs, (rkind, rs)), c in zip(jobs, cs):
+        chk.distinct(("D2", c["port"], bdir, two, rkind), nontrivial=len(c["invert"]) > 0 and any(r != (0, 0) for r in rs))
+        chk.hist("D2.reset_kind", rkind)
+        chk.hist("D2.domains", "two" if two else "one")
+        prev = (0, 0)
+        for ev, r in zip(evs, rs):
+            for side, dom_tick in ((0, ev[3]), (1, ev[4] if two else ev[3])):
+                if side == 1 and not two:
+                    continue
+                what = "rises" if r[side] and not prev[side] else "falls" if prev[side] and not r[side] else "high" if r[side] else "low"
+                chk.hist("D2.event", f"reset {what}, {'edge' if dom_tick else 'no edge'}")
+            prev = r
+    chk.sample({"stream": "D2", **{k: (v if k not in ("events", "resets") else v[:5]) for k, v in cs[-1].items()}, "impl": impls[-1][:120]})
+    chk.extra["exhaustive"]["D2"] = (f"{n_d2_exh} fixed configurations (sync / async reset x 5 legal direction pairs x one / two domains x "
+                                     f"3 width-mask pairs) + {P['ff_reset']} composite ports; the reset of each domain is raised and "
+                                     "released at random events, with and without a clock edge of that domain in the same event")
+
+    lap("D2")
+    # ---------------------------------------------------------------- F: real ports, read back from the RTLIL text
+    jobs = []
+    for fixed in fixed_xdesigns(rng):
+        jobs.append(fixed)
+    n_f_fixed = len(jobs)
+    for _ in range(P["rtlil_designs"]):
+        jobs.append(gen_xdesign(rng))
+    res = pmap(run_rtlil, jobs, workers)
+    impls = [r[0] for r in res]
+    reqs = []
+    for kind, _nest, bufs in jobs:
+        reqs.append(f"(real {kind} " + " ".join(
+            f"({ff} {bdir} {ser(e)} " + " ".join(f"({o} {oe} {pad})" for o, oe, pad in vecs) + ")" for ff, bdir, e, vecs in bufs) + ")")
+    cs = [{"kind": kind, "nesting": nest, "buffers": [{"ff": ff, "bdir": bdir, "port": ser(e), "vectors": vecs} for ff, bdir, e, vecs in bufs]}
+          for kind, nest, bufs in jobs]
+    for r, c in zip(res, cs):
+        if r[0] == "unevaluable":
+            chk.not_shown("RTLIL of a buffer on real ports contains something the harness cannot evaluate: " + str(r[1]), c)
+    keep = [i for i, r in enumerate(res) if r[0] != "unevaluable"]
+    resps = chk.driver.ask(reqs)
+    compare(chk, "RTLIL(real ports)", [cs[i] for i in keep], [impls[i] for i in keep], [resps[i] for i in keep])
+    chk.count(len(jobs))
+    for (kind, nest, bufs), impl in zip(jobs, impls):
+        chk.distinct(("F", kind, nest, tuple((ff, bdir, ser(e)) for ff, bdir, e, _v in bufs)), nontrivial=True)
+        chk.hist("F.nesting", {0: "buffer is the converted design", 1: "buffers are submodules", 2: "buffers two levels down"}[nest])
+        chk.hist("F.kind", kind)
+        chk.hist("F.buffers", len(bufs))
+        chk.hist("F.outcome", impl if impl.startswith("err") else impl.split("#")[0])
+        for ff, bdir, e, _v in bufs:
+            lanes = xlanes(e)
+            chk.hist("F.ports_in_expression", len({l for l, _b in lanes}))
+            chk.hist("F.width", len(lanes))
+            chk.hist("F.cross_port_index_continuation", xcontinuation(lanes, top_numbering=(nest == 0 and not ff)))
+    chk.sample({"stream": "F", **cs[-1], "impl": impls[-1][:200]})
+    chk.extra["exhaustive"]["F"] = (f"{n_f_fixed} fixed designs (index-continuing concatenations of slices of two ports at each nesting level) + "
+                                    f"{P['rtlil_designs']} random designs of 1-3 Buffer/FFBuffer on concatenations of slices and single bits of 2-3 "
+                                    "IOPorts (no pad bit used twice, except ~4% on purpose); back.rtlil.convert, text parsed and evaluated")
+
+    lap("F")
     chk.cov["rule"] = ("a case is one port expression / one constructor call / one simulated buffer configuration with its input "
                        "sequence / one elaborated design; distinct = different serialised case; non-trivial = expression depth >= 1 "
                        "(A), width >= 1 (C, D), every design (B, E)")
@@ -868,6 +1400,12 @@ def _run(chk, rng, quick, workers, P):
         "FFBuffer on real ports: the netlist is evaluated at power-on and after one clock edge with the inputs held and compared with "
         "FFBuffer.realRun (theorems ffbuffer_real_registers / _one_stage); where the FlipFlop cells sit in the netlist is not modelled",
         "DDRBuffer is covered only as far as its constructor (it cannot be elaborated without a platform)",
+        "stream F reads the text of amaranth.back.rtlil.convert with a reader written for this check (wires, `connect`, submodule "
+        "cells, $tribuf $dff $not $xor $and $or $mux $pos): module ports alias what the parent connects, pads are the bits of the "
+        "top-level wires a<N>, a $tribuf / a `connect` onto pads is the output side and a `connect` from pads the input side of one "
+        "buffer cell; it yields the same observations as the netlist evaluation of stream E and is compared with the same model request",
+        "stream D2: the model has no reset input; FFBuffer's i_ff / o_ff / oe_ff are declared reset_less in lib/io.py, so the expectation "
+        "for domains with a synchronous or asynchronous reset is the run of the same events without any reset",
     ]
 
 
@@ -1014,3 +1552,203 @@ def gen_design(rng):
         ident, w = leaves[0]
         bufs.append((0, "io", ("leaf", "io", ident, w, bits_of(0, w)), [(0, 0, 0)]))
     return kind, bufs
+
+
+def gen_reset_events(rng, w, n, two):
+    """events as gen_events plus one (rstI, rstO) level per event; a reset that rises often comes without a clock edge
+    of its domain in the same event (then only an asynchronous reset could have any effect - and must have none)"""
+    evs, rs = [], []
+    cur = [0, 0]
+    for k in range(n):
+        o = rng.getrandbits(w) if w else 0
+        pi = rng.getrandbits(w) if w else 0
+        oe = rng.getrandbits(1) if k else 1
+        if two:
+            ti, to = rng.choice([(1, 1), (1, 0), (0, 1), (1, 1), (0, 0)])
+        else:
+            ti = to = 0 if rng.random() < 0.2 else 1
+        rose = [False, False]
+        if k >= 2:              # the first events fill the registers with something that is not the initial value
+            for side in (0, 1):
+                if rng.random() < 0.3:
+                    cur[side] ^= 1
+                    rose[side] = cur[side] == 1
+        if not two:
+            cur[1] = cur[0]
+            if rose[0] and rng.random() < 0.6:
+                ti = to = 0
+        else:
+            if rose[0] and rng.random() < 0.6:
+                ti = 0
+            if rose[1] and rng.random() < 0.6:
+                to = 0
+        if k < 2:
+            ti = to = 1
+        evs.append((o, oe, pi, ti, to))
+        rs.append((cur[0], cur[1]))
+    return evs, rs
+
+
+# ------------------------------------------------------------------------------------------------
+# stream F designs: expressions are `add`-chains of pieces; a piece is a unit-step slice or a single bit of a leaf,
+# possibly inverted
+
+def _piece(rng, leaf, a, b):
+    if b == a + 1 and rng.random() < 0.5:
+        e = ("get", leaf, ("i", a if rng.random() < 0.7 else a - leaf[3]))
+    else:
+        e = ("get", leaf, ("s", a, b, None))
+    if rng.random() < 0.25:
+        e = ("inv", e)
+    return e
+
+
+def xlanes(e):
+    """[(leaf id, bit)] of an expression made of leaf / get / add / inv (what the port algebra gives; used for the
+    input histograms and the generator's bookkeeping only, never as an expectation)"""
+    t = e[0]
+    if t in ("leaf", "leafb"):
+        return [(e[2], b) for b in range(e[3])]
+    if t == "inv":
+        return xlanes(e[1])
+    if t == "add":
+        return xlanes(e[1]) + xlanes(e[2])
+    inner = xlanes(e[1])
+    r = inner[py_key(e[2])]
+    return r if isinstance(r, list) else [r]
+
+
+def xcontinuation(lanes, top_numbering):
+    """does a bit of another wire follow bit k-1 of a wire at index k? In the converted design itself wires are the
+    IOPorts; inside a submodule, every maximal run of bits of one IOPort that the submodule uses is a wire of its own"""
+    if top_numbering:
+        num = {l: (l[0], l[1]) for l in lanes}
+    else:
+        num = {}
+        used = sorted(set(lanes))
+        start = None
+        for k, (leaf, bit) in enumerate(used):
+            if k == 0 or used[k - 1] != (leaf, bit - 1):
+                start = bit
+            num[(leaf, bit)] = ((leaf, start), bit - start)
+    for x, y in zip(lanes, lanes[1:]):
+        (wx, ix), (wy, iy) = num[x], num[y]
+        if wx != wy and iy == ix + 1:
+            return "yes"
+    return "no"
+
+
+def xvectors(rng, bufs_w):
+    """the same number of vectors for every buffer of a design: index-coded ones (bit b of vector j = bit j of b+1,
+    so that every data bit has its own column) and two random ones"""
+    ncode = max(max(bufs_w), 1).bit_length()
+    out = []
+    for w in bufs_w:
+        vs = []
+        for j in range(ncode):
+            code = sum((((b + 1) >> j) & 1) << b for b in range(w))
+            vs.append((code, (j + 1) & 1, code ^ (rng.getrandbits(w) if j else 0)))
+        full = (1 << w) - 1
+        vs.append((full & ~vs[0][0], 1, rng.getrandbits(w)))
+        for _ in range(2):
+            vs.append((rng.getrandbits(w), rng.getrandbits(1), rng.getrandbits(w)))
+        out.append(vs)
+    return out
+
+
+def _chain(parts):
+    e = parts[0]
+    for p_ in parts[1:]:
+        e = ("add", e, p_)
+    return e
+
+
+def fixed_xdesigns(rng):
+    """the index patterns named in the property's netlist clause, at each nesting level (rng: the random vectors)"""
+    out = []
+    A = ("leaf", "io", 0, 4, "0000")
+    B = ("leaf", "io", 1, 4, "0101")
+    C = ("leaf", "io", 2, 3, "110")
+    shapes = [
+        [("get", A, ("s", 0, 2, None)), ("get", B, ("s", 2, 4, None))],
+        [("get", A, ("i", 0)), ("inv", ("get", B, ("i", 1))), ("get", A, ("i", 2)), ("get", B, ("i", 3))],
+        [("get", A, ("s", 0, 2, None)), ("get", B, ("i", 2)), ("get", B, ("s", 0, 2, None))],
+        [("get", B, ("s", 1, 3, None)), ("get", A, ("i", 3)), ("get", A, ("s", 1, 3, None)), ("get", C, ("i", 2)), ("get", C, ("s", 0, 2, None))],
+        [("get", ("add", A, B), ("s", 2, 6, None))],
+        [A, B],
+    ]
+    for kind in ("se", "diff"):
+        for nest in (0, 1, 2):
+            for parts in shapes:
+                for ff in (0, 1):
+                    for bdir in DIRS:
+                        e = _chain(parts)
+                        (vecs,) = xvectors(rng, [len(xlanes(e))])
+                        out.append((kind, nest, [(ff, bdir, e, vecs)]))
+    return out
+
+
+def gen_xdesign(rng):
+    kind = rng.choice(["se", "se", "diff"])
+    nleaf = rng.randint(2, 3)
+    leaves = []
+    for ident in range(nleaf):
+        w = rng.randint(2, 6)
+        leaves.append(("leaf", "io", ident, w, bits_of(rng.getrandbits(w), w)))
+    nest = rng.choice([0, 0, 1, 1, 1, 2])
+    nbuf = 1 if nest == 0 else rng.choice([1, 1, 2, 3])
+    free = {l[2]: set(range(l[3])) for l in leaves}
+    conflict = rng.random() < 0.04
+    bufs = []
+
+    def take(leaf, a, b):
+        """the piece leaf[a:b] if all its bits are still free"""
+        if a < 0 or b > leaf[3] or a >= b:
+            return None
+        if not conflict and not all(k in free[leaf[2]] for k in range(a, b)):
+            return None
+        for k in range(a, b):
+            free[leaf[2]].discard(k)
+        return _piece(rng, leaf, a, b)
+
+    for _ in range(nbuf):
+        parts = []
+        style = rng.choice(["continue", "alternate", "scramble", "random", "random"])
+        p, q = rng.sample(leaves, 2)
+        if style == "continue":         # p[a:k] + q[k:m] (+ p[m:...])
+            k = rng.randint(1, min(p[3], q[3] - 1))
+            a = rng.randint(0, k - 1)
+            m = rng.randint(k + 1, q[3])
+            parts = [take(p, a, k), take(q, k, m)]
+            if m < p[3] and rng.random() < 0.5:
+                parts.append(take(p, m, rng.randint(m + 1, p[3])))
+        elif style == "alternate":      # p[a] + q[a+1] + p[a+2] + ...
+            a = rng.randint(0, 1)
+            n = rng.randint(2, 5)
+            for j in range(n):
+                parts.append(take((p, q)[j % 2], a + j, a + j + 1))
+        elif style == "scramble":       # p[a:a+k] + q[b+k:b+k+n] + q[b:b+k]: continues in the numbering of a submodule
+            k = rng.randint(1, min(p[3], q[3] - 1))
+            a = rng.randint(0, p[3] - k)
+            b = rng.randint(0, q[3] - k - 1)
+            n = rng.randint(1, q[3] - k - b)
+            parts = [take(p, a, a + k), take(q, b + k, b + k + n), take(q, b, b + k)]
+            if rng.random() < 0.3:
+                parts.reverse()
+        else:
+            for _ in range(rng.randint(2, 4)):
+                leaf = rng.choice(leaves)
+                a = rng.randint(0, leaf[3] - 1)
+                parts.append(take(leaf, a, rng.randint(a + 1, min(leaf[3], a + 3))))
+        parts = [x for x in parts if x is not None]
+        if not parts:
+            continue
+        if rng.random() < 0.1:
+            e = ("inv", _chain(parts))
+        else:
+            e = _chain(parts)
+        bufs.append([rng.randint(0, 1), rng.choice(DIRS), e])
+    if not bufs:
+        bufs.append([0, "io", _chain([("get", leaves[0], ("s", 0, 1, None)), ("get", leaves[1], ("s", 1, 2, None))])])
+    vss = xvectors(rng, [len(xlanes(b[2])) for b in bufs])
+    return kind, nest, [(ff, bdir, e, vs) for (ff, bdir, e), vs in zip(bufs, vss)]
